@@ -13,7 +13,13 @@
       both token supplies, the sender's balances, the pools, and what the State query reports;
     - [convert_b_st_tx_rate_mono], [convert_st_b_tx_rate_mono]: neither reported rate is lower
       after the transaction (for a token that still has claims), and the reported rates are again
-      exact rates of backed pools. *)
+      exact rates of backed pools;
+    - [convert_tx_invariants]: Wired, EntWf, RatesExact, BackedW, (within E1) SoundRates hold again;
+    - [rate_monotone_step_convert], [rate_step_invariants_convert]: one Convert operation of a
+      history, successful or not;
+    - [rate_monotone_history]: along any history of Bond / BondForStSei / Convert operations that
+      stays within E1 with both tokens in circulation, the reported rates never fall.
+    Not proved here: the success direction for Convert (only effects of successful transactions). *)
 From Coq Require Import Permutation.
 From Krp Require Import Tactics Prelude Fixed FMap Types Env Registry Cw20 Reward Dispatcher Hub Exec
      ExecP Hist Inv RegistryP HubFrame HubAdmin Cw20P MirrorWire MirrorP HubRates
